@@ -45,6 +45,11 @@ func NewRequestOptIn(uuid flows.ActionUUID, optIn *assets.OptInReference) *Reque
 // Execute creates the optin events
 func (a *RequestOptInAction) Execute(run flows.Run, step flows.Step, logModifier flows.ModifierCallback, logEvent flows.EventCallback) error {
 	optIn := run.Session().Assets().OptIns().Get(a.OptIn.UUID)
+	if optIn == nil {
+		logEvent(events.NewDependencyError(a.OptIn))
+		return nil
+	}
+
 	destinations := run.Contact().ResolveDestinations(false)
 
 	if len(destinations) > 0 {
